@@ -108,7 +108,8 @@ def build(c):
         out.append(("base64_rt", "(\\b -> base64_decode(base64_encode(b)) == b)(%s)" % B, ("eq", I(1))))
         out.append(("gzip_rt", "(\\b -> decompress(compress(b)) == b)(%s)" % B, ("eq", I(1))))
         gz = gzip.compress(b, mtime=0)
-        out.append(("gunzip_python", "decompress(%s)" % render(gz), ("eq", mcanon(b))))
+        gz_src = render(gz) if len(gz) < 4096 else "hex_decode(%s)" % render_str(gz.hex())    # a long B[..] literal is slow to parse
+        out.append(("gunzip_python", "decompress(%s)" % gz_src, ("eq", mcanon(b))))
 
         def py_gunzip(got, b=b):
             try:
